@@ -206,7 +206,18 @@ impl Pager {
             .truncate(false)
             .open(&path)?;
 
-        if !existed || file.metadata()?.len() == 0 {
+        // A crash while the file was being created leaves it shorter than meta + bitmap, or
+        // exactly that long and still zero-filled (set_len done, first meta write not).  No open
+        // ever succeeded on such a file, so it holds no data: initialise it again.
+        let len = file.metadata()?.len();
+        let interrupted_creation = len < (PAGE_SIZE * 2) as u64
+            || (len == (PAGE_SIZE * 2) as u64 && {
+                let mut meta_page = [0u8; PAGE_SIZE];
+                read_page_raw(&file, META_PAGE_ID, &mut meta_page)?;
+                meta_page.iter().all(|b| *b == 0)
+            });
+
+        if !existed || interrupted_creation {
             let meta = Meta::new();
             let bitmap = Bitmap::new();
             vio!(SetLen { path: path.clone(), len: (PAGE_SIZE * 2) as u64 });
